@@ -265,10 +265,94 @@ func assertingCall(in ssa.Instruction) (ssa.Value, bool) {
 	return nil, false
 }
 
+// pathFactsCache: per function, per instruction: conditions with the same truth value in every
+// abstract state (errpath) that reaches the instruction.
+var pathFactsCache = map[*ssa.Function]map[ssa.Instruction]map[ssa.Value]bool{}
+
+// pathFacts explores the function once and intersects, per instruction, the known branch
+// conditions of all states reaching it. This sees correlations that dominance cannot:
+// `if n == 0 { err = … }; if err == nil { use args[0] }`.
+func pathFacts(fn *ssa.Function) map[ssa.Instruction]map[ssa.Value]bool {
+	if m, ok := pathFactsCache[fn]; ok {
+		return m
+	}
+	out := map[ssa.Instruction]map[ssa.Value]bool{}
+	pathFactsCache[fn] = out
+	// conditions of interest
+	var conds []ssa.Value
+	for _, b := range fn.Blocks {
+		if ifi, ok := b.Instrs[len(b.Instrs)-1].(*ssa.If); ok {
+			conds = append(conds, ifi.Cond)
+		}
+	}
+	if len(conds) == 0 || len(fn.Blocks) > 400 {
+		return out
+	}
+	interesting := func(in ssa.Instruction) bool {
+		switch x := in.(type) {
+		case *ssa.IndexAddr, *ssa.Index, *ssa.Slice, *ssa.Lookup, *ssa.MapUpdate:
+			return true
+		case *ssa.TypeAssert:
+			return !x.CommaOk
+		case *ssa.BinOp:
+			return true
+		case *ssa.FieldAddr:
+			return true
+		case ssa.CallInstruction:
+			return true
+		}
+		return false
+	}
+	visits := map[ssa.Instruction]int{}
+	o := &PathOracle{MaxStates: 60000}
+	o.Visit = func(st *PState, in ssa.Instruction) {
+		if !interesting(in) {
+			return
+		}
+		cur := map[ssa.Value]bool{}
+		for _, cv := range conds {
+			switch st.Get(cv, o) {
+			case AvNonNil:
+				cur[cv] = true
+			case AvNil:
+				cur[cv] = false
+			}
+		}
+		visits[in]++
+		if visits[in] == 1 {
+			out[in] = cur
+			return
+		}
+		old := out[in]
+		for k, v := range old {
+			if nv, ok := cur[k]; !ok || nv != v {
+				delete(old, k)
+			}
+		}
+	}
+	if !ExplorePaths(fn, o) {
+		// incomplete exploration: the intersection is not over all paths — discard
+		for k := range out {
+			delete(out, k)
+		}
+	}
+	return out
+}
+
 // FactsAt collects the facts holding just before instruction `at`.
 func FactsAt(at ssa.Instruction) *Facts {
 	f := newFacts()
 	fn := at.Parent()
+	if pf := pathFacts(fn)[at]; pf != nil {
+		for cv, truth := range pf {
+			// a condition computed after `at` in a loop may be stale: only conditions whose
+			// definition dominates `at` are facts about the current iteration
+			if ci, ok := cv.(ssa.Instruction); ok && !dominates(ci, at) {
+				continue
+			}
+			f.addCond(cv, truth, 0)
+		}
+	}
 	ab := at.Block()
 	for _, b := range fn.Blocks {
 		if b != ab && !b.Dominates(ab) {
@@ -356,7 +440,29 @@ func (f *Facts) lenAtLeast(x ssa.Value, k int64) bool {
 			}
 		}
 	}
-	return lenLowerBoundByDef(x) >= k
+	if lenLowerBoundByDef(x) >= k {
+		return true
+	}
+	// all smaller lengths excluded by disequalities: len != 0, len != 1, …
+	excluded := map[int64]bool{}
+	for _, c := range f.Cmps {
+		l, op, r := c.L, c.Op, c.R
+		if sameLenTerm(r, want) && l.IsConst {
+			l, r = r, l
+		}
+		if sameLenTerm(l, want) && r.IsConst && op == token.NEQ {
+			excluded[r.K-l.Off] = true
+		}
+	}
+	if len(excluded) > 0 {
+		for i := int64(0); i < k; i++ {
+			if !excluded[i] {
+				return false
+			}
+		}
+		return true
+	}
+	return false
 }
 
 func sameLenTerm(a, want Term) bool {
@@ -526,8 +632,56 @@ func (f *Facts) ltLen(v ssa.Value, x ssa.Value) bool {
 			}
 		}
 	}
-	// comparison against a copy of len(x): v < n where n == len(x) is the same SSA value: handled by termOf(n) (n is the len call)
+	// len(x) == len(y) established: v < len(y) suffices
+	for _, c := range f.Cmps {
+		if c.Op != token.EQL || !c.L.isLen() || !c.R.isLen() || c.L.Off != 0 || c.R.Off != 0 {
+			continue
+		}
+		var other ssa.Value
+		if sameLenTerm(c.L, want) {
+			other = c.R.LenVal
+		} else if sameLenTerm(c.R, want) {
+			other = c.L.LenVal
+		}
+		if other != nil && other != x && accessPath(other) != accessPath(x) {
+			if f.ltLenNoEq(v, other) {
+				return true
+			}
+		}
+	}
+	// x was made with make([]T, n): v < n suffices
+	if ms, ok := stripConv(x).(*ssa.MakeSlice); ok {
+		lt := termOf(ms.Len)
+		for _, c := range f.Cmps {
+			l, op, r := c.L, c.Op, c.R
+			if sameTermFull(l, lt) {
+				l, r = r, l
+				op = flipOp(op)
+			}
+			if !sameTermFull(r, lt) || l.V == nil || tv.V == nil || !sameTerm(Term{V: l.V}, Term{V: tv.V}) {
+				continue
+			}
+			if (op == token.LSS && l.Off >= tv.Off) || (op == token.LEQ && l.Off > tv.Off) {
+				return true
+			}
+		}
+	}
 	return false
+}
+
+// ltLenNoEq is ltLen without following length equalities (no recursion).
+func (f *Facts) ltLenNoEq(v ssa.Value, x ssa.Value) bool {
+	saved := f.Cmps
+	var filtered []Cmp
+	for _, c := range saved {
+		if c.Op == token.EQL && c.L.isLen() && c.R.isLen() {
+			continue
+		}
+		filtered = append(filtered, c)
+	}
+	f.Cmps = filtered
+	defer func() { f.Cmps = saved }()
+	return f.ltLen(v, x)
 }
 
 // leLen: v <= len(x).
